@@ -40,6 +40,10 @@ def run(model, rep, tier):
              "caller's in-place pruning of the yielded list (no snapshot taken before the yield, no other "
              'guard than the islink test on the recursion)')
     c14.symlinked_directories_followed(ctx, rep, 'C03.R14')
+    # 'exactly the selected tests': the predicate every filter goes through applies each pattern on its
+    # own (shared with C08.R1; patterns joined into one alternation share flags and group numbers)
+    from . import c08
+    c08.r1_polarity(ctx, rep, R='C03.R15')
     from . import robust
     robust.asserts_have_no_effects(ctx, rep, 'C03.R20', 'C03')
     rep.units['cfg'] = ctx.cfg_stats
